@@ -29,9 +29,9 @@ def path_osc(ctx, job, box):
     pre = ss.value
     code = ctx.bvvar('code', 32)
     ctx.assume(valid_scalar(code))
-    # codes R / P / p are Linux palette sequences whose extent the statement does not fix; ESC, BEL, ST would
+    # codes R / P are the Linux palette sequences (no string follows, see C03); ESC, BEL, ST would
     # not be a code character at all
-    for v in (ord('R'), ord('P'), ord('p'), ESC, BEL, ST):
+    for v in (ord('R'), ord('P'), ESC, BEL, ST):
         ctx.assume(code != v)
     pay = []
     for i in range(npay):
@@ -119,10 +119,10 @@ def jobs(tier):
 
 META = {
     'functions': ['Parser::new::{closure#0} (OSC branch)', 'Parser::feed', 'set_title', 'set_icon_name', 'draw'],
-    'bounds': 'both introducers x a symbolic code character (any scalar except R, P, p) x `;` x payload of 0..2 (thorough 3) '
+    'bounds': 'both introducers x a symbolic code character (any scalar except R, P) x `;` x payload of 0..2 (thorough 3) '
               'unconstrained symbolic characters (anything but BEL, ESC, U+009C) or an embedded ESC x pair x each of the '
               'three terminators, followed by one more character; every 2-way cut of one representative; from symbolic '
               'screen states (title/icon/grid/cursor symbolic) on 3x2',
-    'outside': 'payloads longer than 3; OSC codes R/P/p (Linux palette sequences) and strings without `;` after the code '
+    'outside': 'payloads longer than 3; OSC codes R/P (Linux palette sequences without a string, covered by C03) and strings without `;` after the code '
                'other than the empty one',
 }
